@@ -347,6 +347,9 @@ pub fn op_hand(mode: &str, np: usize, script: &str) -> String {
                         let _ = env.peer.write_all(&bytes).await;
                     } else if let Some(h) = body.strip_prefix("x:") {
                         let _ = env.peer.write_all(&unhex(h)).await;
+                    } else if let Some(k) = body.strip_prefix("p:") {
+                        // a fragment of a keep-alive: so many zero bytes
+                        let _ = env.peer.write_all(&vec![0u8; k.parse().unwrap()]).await;
                     } else if let Some(i) = body.strip_prefix('h') {
                         let _ = broad_tx.send(BroadCmd::SendHave { piece_index: i.parse().unwrap() });
                     } else if let Some(o) = body.strip_prefix('o') {
@@ -570,6 +573,25 @@ pub fn gen_script(r: &mut Rng, flavor: &str) -> String {
             evs.push(format!("f:pb,{},{},{},{}>{}", i, l, b, bl, rep));
         }
         sh = None;
+    }
+    if flavor == "C20" && !silent_start && hs_kind == 0 && r.chance(1, 4) {
+        // keep-alives that trickle in byte by byte: however the bytes are spread over the intervals, nothing but keep-alives
+        // arrives (and an incomplete one is nothing at all)
+        let mut pend = 0usize;
+        for _ in 0..6 + r.below(24) {
+            if r.coin() {
+                evs.push(format!("t{}", r.pick(&[40u64, 100, 119, 120, 121, 130])));
+            } else {
+                let k = 1 + r.below(3) as usize;
+                evs.push(format!("p:{}", k));
+                pend = (pend + k) % 4;
+            }
+        }
+        if pend != 0 {
+            evs.push(format!("p:{}", 4 - pend));
+        }
+        evs.push("t130".to_string());
+        evs.push("t130".to_string());
     }
     if flavor == "C20" && !silent_start && r.chance(1, 4) {
         // assigned a piece, then silent; the piece is completed elsewhere between two ticks and another one handed out
